@@ -4,8 +4,11 @@ Mechanism (breezy/bzr/pack_repo.py): RepositoryPackCollection._commit_write_grou
 (finish the new pack, allocate, autopack or save), _save_pack_names (names lock,
 _diff_pack_names, atomic put_file of pack-names, _clear_obsolete_packs(preserve),
 _obsolete_packs afterwards), _execute_pack_operations / pack(), the autopack
-planner.  NewPack.finish itself is compiled code outside /repo (bzrformats): its
-transport calls are observed, not mutated.
+planner, and their ERROR paths (try/finally in _save_pack_names, @only_raises on
+unlock, the per-call `except (PathError, TransportError)` of _obsolete_packs and
+_clear_obsolete_packs, abort_write_group -> NewPack.abort).  NewPack.finish /
+abort themselves are compiled code outside /repo (bzrformats): their transport
+calls are observed, not mutated.
 
 T2a (trace equality): a logging transport decorator (`verifc04+`, defined here)
     wraps the repository's transports; every mutating call below
@@ -16,20 +19,45 @@ T2a (trace equality): a logging transport decorator (`verifc04+`, defined here)
     names numbered, upload names numbered) and must equal the operation list of
     the Lean model (`commitOps` / `packOps`, which contain the model of the
     autopack planner, of the three-way pack-names merge, of the obsolete-pack
-    bookkeeping).
+    bookkeeping).  A `Plan.error` of the model's planner yields only the new
+    pack's operations, so any occurrence on the real code is a mismatch.
 T2b (crash enumeration): the directory is copied BEFORE every mutating call (a
     crash at that point: nothing after it ran, no finally/abort code), and after
     the last one.  The listing of every copy (pack-names content, the four
     directories, which files are still open for writing, lock held) must equal
     the model state after the corresponding prefix.
+T2c (fault injection): the same operation is re-run from a copy of the same
+    initial directory with ONE transport call failing: the decorator raises
+    OSError(ENOSPC) / TransportError / KeyboardInterrupt instead of the call
+    ("before") or right after it returned ("after"), or from a non-mutating call
+    (get / readv / has / stat / list_dir) made between two mutating calls.  The
+    exception travels through the real error handling.  The list of calls that
+    were executed, whether the exception left the operation, the final
+    directory state and the state of every copy taken before a call made
+    DURING the error handling must equal the Lean model of the error paths
+    (`commitFault` / `packFault`, driver ops cfault / pfault).  Fault points:
+    always the pack-names put_file (before and after) and a failing read between
+    taking the names lock and the put_file; a sample (all in the thorough tier)
+    of lock, unlock, the rename finishing a pack, first obsoleting move, first
+    deletion in obsolete_packs/, lock-directory sub-steps, and of all other calls
+    and reads.  Not compared with the model (oracle only): runs in which the
+    stream sink swallowed the exception and suspended the write group, reads
+    after the last mutating call.
 Oracle (independent of the model): every copy — plus variants in which each file
-    that was open for writing is truncated (torn write) — is opened with the real
-    Repository.open: all_revision_ids() must be exactly the old or exactly the
-    new set, every revision, its tree and every file text must be readable and
-    equal to the source of truth, check() must be clean.
+    that was open for writing is truncated (torn write), plus a variant with the
+    half-written temporary file of the atomic put_file(pack-names) left behind —
+    is opened with the real Repository.open: all_revision_ids() must be exactly
+    the old or exactly the new set, every revision, its tree and every file text
+    must be readable and equal to the source of truth, check() must be clean.
+    The same for the directory left by every fault-injected run and for every
+    copy taken during its error handling; a fault-injected operation that
+    returned normally must show the new set; after a failed operation a fresh
+    process (lock broken) must be able to fetch one more revision.
 Initial states include directories left behind by earlier crashes (a crash copy
 of one operation is the start state of the next: leftovers in upload/, unlisted
-packs and indices, stale obsolete_packs/).
+packs and indices, stale obsolete_packs/).  A scenario whose build script fails
+inside breezy is a VIOLATION (the repository became unusable without any crash
+of the operation under test); a failure inside the harness is exit 2.
 
 Finding made with this check (repaired by fix: commit 24f6bb3): `pack(hint=[p])` on pack-0.92 when
 the repacked content of `p` hashes to `p`'s own name: KnitPacker finished the new pack ONTO the listed
@@ -47,6 +75,12 @@ Mutants this was built against (scratch worktrees):
  G  GCCHKPacker: already-optimal test inverted (finish onto the listed pack) -> oracle, torn listed index + raised error
  N  _obsolete_packs: ".rix" missing from the suffix list                      -> T2a only (property not violated): no-failing-input-found
  F  fix 24f6bb3 reverted (KnitPacker without the listed-name guard)          -> oracle: pack(hint) raises, torn listed index
+ S  _save_pack_names: _obsolete_packs(...) moved into the `finally:` clause   -> oracle, fault at put_file(pack-names) /
+    (seeded change C04b)                                                        failing read after lock_names: NoSuchFile on reopen
+ S2 _execute_pack_operations: `except: self._obsolete_packs(...); raise`     -> oracle, same fault points
+    around _save_pack_names
+ U  _save_pack_names: `finally: self._unlock_names()` dropped                -> T2c only (lock left held; property not violated)
+ W  _commit_write_group: exception of autopack() swallowed (`return []`)     -> oracle: operation returned normally, new revisions not listed
  harmless: builder created before lock_names(), comprehension for to_be_obsoleted, renamed locals in
  _clear_obsolete_packs -> clean.
 """
@@ -60,24 +94,35 @@ THEOREMS = [
     "step_safe'", "run_take_safe", "finish_ready'", "txn_crash_atomic", "safe_crash_atomic",
     "commit_crash_atomic", "commit_crash_atomic_planned", "pack_crash_atomic",
     "commit_final_names", "commit_visible", "autopack_final_names", "autopack_visible",
-    "pack_final_names", "pack_visible", "commit_ops_enabled", "leftovers_harmless",
-    "name_collision_witness",
+    "pack_final_names", "pack_visible", "commit_ops_enabled", "commit_ops_enabled_all", "pack_ops_enabled",
+    "leftovers_harmless", "leftovers_harmless_unlisted", "name_collision_witness",
+    "shape_crash_atomic", "save_ctx_atomic", "commit_fault_atomic", "commit_fault_atomic_planned",
+    "packSel_fault_atomic", "pack_fault_atomic", "save_fault_names", "obsolete_in_finally_witness",
+    "crash_then_retry", "fault_then_retry",
 ]
 RULE = ("scenario = (format, build script: chunk sizes fetched / commits / packs, optional start from a crash copy, "
-        "operation under test: fetch k revisions | commit | pack | pack+clean); case = (scenario, crash index) for "
-        "EVERY mutating transport call of the operation, plus torn-write variants; non-trivial = the operation "
-        "performs a pack-names replacement; distinct by (canonical operation list, initial listing, crash index)")
+        "operation under test: fetch k revisions | commit | pack | pack+clean | pack(hint)); case = (scenario, crash "
+        "index) for EVERY mutating transport call of the operation, plus torn-write variants, plus (scenario, fault = "
+        "(mutating call index | read number between two calls, before/after, OSError | TransportError | "
+        "KeyboardInterrupt)) for the sampled fault points (always the pack-names put_file and a read after taking "
+        "the names lock); non-trivial = the operation performs a pack-names replacement; distinct by (canonical "
+        "operation list, initial listing, crash index or fault)")
 ASSUMPTIONS = [
     "transport.move / rename and put_file(pack-names) are atomic (LocalTransport: os.rename / write-to-temp + rename)",
     "a crash leaves exactly the effects of the transport calls completed so far; a file being written may be torn "
     "(tested: truncated to half and to zero length), a closed file is durable",
     "pack names (md5 of content) of newly written packs are not already listed in pack-names (hypothesis of the "
     "theorems; theorem name_collision_witness shows what happens otherwise)",
+    "fault model: exactly one transport call (mutating or reading) of the operation raises, either instead of being "
+    "performed or right after it returned; failing stream writes between open_write_stream and close, and a second "
+    "fault inside the error handling, are not injected (a CRASH inside the error handling is)",
 ]
 TRUSTED = [
-    "NewPack.finish / index writing are compiled code in bzrformats: their call sequence is observed through the "
-    "transport decorator and compared with the model on every run, not verified",
+    "NewPack.finish / abort / index writing are compiled code in bzrformats: their call sequence is observed through "
+    "the transport decorator and compared with the model on every run (fault-free and fault-injected), not verified",
     "a pack's revision set is a function of its name; the packer copies all revisions (validated per crash copy by the oracle)",
+    "LockDir's own retry behaviour on TransportError (treated as contention) is not modelled: TransportError is not "
+    "injected into lock-directory calls",
 ]
 
 PREFIX = "verifc04+"
@@ -101,6 +146,7 @@ class Recorder:
         self.fault = None    # fault injection: dict(at="w"|"r", k=event index, n=read number, mode=, kind=)
         self.fired = None    # index of the event at which the fault was raised
         self.reads = []      # reads[k] = number of read calls seen before mutating event k (after event k-1)
+        self.read_paths = [] # their relative paths
         self.post_snaps = [] # (event index, copy) taken before every mutating call AFTER the fault fired
 
     def start(self, repo_dir, snap_base, snapshots=True, fault=None):
@@ -113,6 +159,7 @@ class Recorder:
         self.fault = fault
         self.fired = None
         self.reads = [0]
+        self.read_paths = [[]]
         self.post_snaps = []
         self.active = True
 
@@ -135,9 +182,11 @@ class Recorder:
         """called before a non-mutating transport call (get / get_bytes / readv / has / stat / list_dir)"""
         if not self.active:
             return
-        if self._rel(t, a) is None:
+        ra = self._rel(t, a)
+        if ra is None:
             return
         self.reads[-1] += 1
+        self.read_paths[-1].append(ra)
         f = self.fault
         if (f is not None and self.fired is None and f["at"] == "r" and f["k"] == len(self.events)
                 and f["n"] == self.reads[-1]):
@@ -216,11 +265,12 @@ class Recorder:
         k = len(self.events)
         if self.snapshots:
             self.snaps.append(self._snap(k))
-        elif self.fired is not None:
-            # a crash inside the error handling: copy before every call made after the fault
+        elif self.fired is not None and len(self.post_snaps) < self.fault.get("post", 0):
+            # a crash inside the error handling: copy before the calls made after the fault
             self.post_snaps.append((k, self._snap(k)))
         self.events.append((kind, ra, rb, tuple(self.open)))
         self.reads.append(0)
+        self.read_paths.append([])
         f = self.fault
         if (f is not None and self.fired is None and f["at"] == "w" and f["k"] == k and f["mode"] == "before"):
             # the call is not performed at all
@@ -333,13 +383,9 @@ def register():
             REC.read(self, a)
             return self._decorated.get(a)
 
-        def get_bytes(self, a):
+        def _readv(self, a, offsets):
             REC.read(self, a)
-            return self._decorated.get_bytes(a)
-
-        def readv(self, a, offsets, *args, **kw):
-            REC.read(self, a)
-            return self._decorated.readv(a, offsets, *args, **kw)
+            return self._decorated._readv(a, offsets)
 
         def has(self, a):
             REC.read(self, a)
@@ -611,6 +657,306 @@ def fmt_state(nb, names, lst, open_rel, locked):
 
 
 # --------------------------------------------------------------------------
+# fault injection: the operation FAILS with an exception at one transport call
+
+FAULT_KINDS = ("oserror", "transport", "interrupt")
+MODEL_KIND = dict(oserror="io", transport="transport", interrupt="interrupt")
+
+
+def tok_class(t):
+    if t is None:
+        return "lock-substep"
+    if t in ("lk", "ul"):
+        return t
+    if t.startswith("pn"):
+        return "pn"
+    if t.startswith("mv:u"):
+        return "finish-move"
+    if t.startswith("mv:"):
+        return "obsolete-move"
+    if t.startswith("rm:o"):
+        return "clear-delete"
+    if t.startswith("rm:"):
+        return "upload-delete"
+    return "stream-" + t[:2]
+
+
+def choose_faults(sc, toks, reads, read_paths, thorough):
+    """the fault points of one scenario, a deterministic function of the scenario and its fault-free
+    trace.  Always: the pack-names replacement (call not performed / exception right after it) and a
+    failing read between taking the names lock and the replacement; then a sample (all, in the thorough
+    tier) of the other structurally distinct points (lock, unlock, first obsoleting move, first deletion
+    in obsolete_packs/, the rename that finishes a pack, lock-directory sub-steps) and of all the rest."""
+    import random
+    rng = random.Random(1000003 * sc["idx"] + 7919 * sc.get("fseed", 0) + len(toks))
+    always, crit, rest = [], [], []
+    prev = None
+    for k, t in enumerate(toks):
+        c = tok_class(t)
+        lockish = c in ("lock-substep", "lk", "ul")
+        kinds = [x for x in FAULT_KINDS if not (lockish and x == "transport")]
+        if c == "pn":
+            always.append(dict(at="w", k=k, mode="before", kind=rng.choice(kinds)))
+            always.append(dict(at="w", k=k, mode="after", kind=rng.choice(kinds)))
+        elif c in ("lk", "ul", "finish-move"):
+            crit.append(dict(at="w", k=k, mode="before", kind=rng.choice(kinds)))
+            crit.append(dict(at="w", k=k, mode="after", kind=rng.choice(kinds)))
+        elif c in ("obsolete-move", "clear-delete", "upload-delete") and c != prev:
+            crit.append(dict(at="w", k=k, mode="before", kind="transport"))
+            crit.append(dict(at="w", k=k, mode=rng.choice(["before", "after"]), kind=rng.choice(["oserror", "interrupt"])))
+        elif c == "lock-substep" and prev != "lock-substep":
+            crit.append(dict(at="w", k=k, mode=rng.choice(["before", "after"]), kind=rng.choice(kinds)))
+        else:
+            rest.append(dict(at="w", k=k, mode=rng.choice(["before", "after"]), kind=rng.choice(kinds)))
+        prev = c
+    rcrit, rrest = [], []
+    for k, n in enumerate(reads):
+        if not n:
+            continue
+        spec = dict(at="r", k=k, n=rng.randint(1, n), mode="before", kind=rng.choice(FAULT_KINDS))
+        if any(pth.startswith("lock") for pth in read_paths[k]) and spec["kind"] == "transport":
+            spec["kind"] = "oserror"
+        if k < len(toks) and tok_class(toks[k]) == "pn":
+            rcrit.append(spec)
+        else:
+            rrest.append(spec)
+    if thorough:
+        return always + crit + rcrit + rng.sample(rest, min(len(rest), 8)) + rng.sample(rrest, min(len(rrest), 3))
+    return (always + rcrit + rng.sample(crit, min(len(crit), 2)) + rng.sample(rest, min(len(rest), 1))
+            + rng.sample(rrest, min(len(rrest), 1)))
+
+
+def _mask(t):
+    """the order in which an autopack obsoletes the packs it combined follows the planner's sort of equal
+    revision counts, which compares Pack objects by identity: not reproducible between two runs (the
+    fault-injected run is compared with the model using its OWN plan and deletion order)"""
+    if tok_class(t) == "obsolete-move":
+        return "mv:%s>%s" % tuple(x[0] + x[x.index("."):] for x in t[3:].split(">"))
+    if tok_class(t) == "clear-delete":
+        return "rm:o"      # list_dir order: not reproducible on every file system
+    return t
+
+
+def prepare_op(B, root):
+    """open what the operation needs (outside the recorder) -> thunk performing the operation under test"""
+    sc = B["sc"]
+    op = sc["op"]
+    fmt = sc["fmt"]
+    if sc["style"] == "tree":
+        if op[0] == "c":
+            from breezy.branch import Branch
+            from breezy.workingtree import WorkingTree
+            wt2 = WorkingTree.open(root)
+            wt2._branch = Branch.open(durl(root))
+            return lambda: wt2.commit("last", rev_id=("tlast-%d" % sc["idx"]).encode())
+        return lambda: do_pack(root, op[1], decorated=True)
+    if op[0] == "f":
+        return lambda: do_fetch(root, fmt, B["upto"] + op[1], decorated=True)
+    if op[0] == "ph":
+        return lambda: do_pack(root, False, decorated=True, hint=sc["hint"])
+    return lambda: do_pack(root, op[1], decorated=True)
+
+
+def _oracle(info, revs0, revs_new):
+    what = []
+    if info["revs"] is None:
+        what.append("repository cannot be opened/listed")
+    elif info["revs"] != revs0 and info["revs"] != revs_new:
+        what.append("revision set is neither the old one (%d) nor the new one (%s): %d revisions"
+                    % (len(revs0), len(revs_new) if revs_new is not None else None, len(info["revs"])))
+    return what + info["problems"]
+
+
+def retry_fetch(root, fmt, truth, n):
+    """a fresh process continues on the directory `root` (a stale lock is broken first, as `brz break-lock`
+    would): fetch revision number n (the next one) -> list of problems"""
+    lock = os.path.join(root, ".bzr", "repository", "lock")
+    if os.path.isdir(lock):
+        for fn in os.listdir(lock):
+            shutil.rmtree(os.path.join(lock, fn), ignore_errors=True)
+    try:
+        do_fetch(root, fmt, n)
+        ri = inspect(root, truth)
+        want = sorted(source(fmt)["ids"][:n + 1])
+        w = list(ri["problems"])
+        if ri["revs"] != want:
+            w.insert(0, "%s revisions listed, expected %d" % (None if ri["revs"] is None else len(ri["revs"]), n + 1))
+    except Exception as e:
+        w = ["raised %s: %s" % (type(e).__name__, str(e)[:160])]
+    return w
+
+
+def run_fault(B, spec, retry):
+    """ONE fault-injected run of the scenario's operation, starting from a copy of the initial state.
+    The exception is raised by the transport decorator (instead of / right after the call, or by a
+    read), travels through the real error handling, and is caught here.  Oracle: the directory left
+    behind - and every directory a crash DURING the error handling would leave behind - opens, lists
+    the old or the new revisions, reads completely, passes check(); an operation that returned normally
+    must have produced the new state; a following fetch by a fresh process must work."""
+    sc = B["sc"]
+    res = dict(spec=spec, violations=[], skipped=None)
+    root = env.fresh_dir("c04f")
+    os.rmdir(root)
+    shutil.copytree(B["pristine"], root, symlinks=True)
+    snapbase = env.fresh_dir("c04s")
+    thunk = prepare_op(B, root)
+    del _plan_log[:]
+    REC.start(os.path.join(root, ".bzr", "repository"), snapbase, snapshots=False, fault=dict(spec, post=B["post"]))
+    raised = None
+    try:
+        thunk()
+    except BaseException as e:
+        if REC.fired is None and not isinstance(e, Exception):
+            REC.stop()
+            raise
+        raised = "%s: %s" % (type(e).__name__, str(e)[:160])
+    finally:
+        if REC.active:
+            final = REC.stop()
+    events, fired, open_now, post = list(REC.events), REC.fired, list(REC.open), list(REC.post_snaps)
+    plan_log = list(_plan_log)
+    try:
+        if fired is None:
+            res["skipped"] = "fault-not-reached"
+            return res
+        k = spec["k"]
+        nb = Numbering(B["names0"], B["lst0"])
+        toks = [canon_event(nb, e) for e in events]
+        if [_mask(t) for t in toks[:k]] != [_mask(t) for t in B["toks"][:k]]:
+            res["skipped"] = "trace-differs-before-fault"
+            res["detail"] = "prefix of the faulted run differs from the fault-free run: %r vs %r" % (
+                toks[:k][-3:], B["toks"][:k][-3:])
+            return res
+        before_w = spec["at"] == "w" and spec["mode"] == "before"
+        skip = k if before_w else None
+        executed = [(i, t) for i, t in enumerate(toks) if t is not None and i != skip]
+        info = inspect(final, B["truth"])
+        locked = os.path.isdir(os.path.join(final, ".bzr", "repository", "lock", "held"))
+        st_final = fmt_state(nb, info["names"] or [], listing(final), open_now, locked)
+        ex = [("pn:" + st_final.split("|")[0]) if t == "pn" else t for _, t in executed]
+        res["raised"] = raised
+        res["vis"] = "?" if info["revs"] is None else "O" if info["revs"] == B["revs0"] else \
+            "N" if info["revs"] == B["revs_new"] else "X"
+        case_at = list(events[k][:3]) if (spec["at"] == "w" and k < len(events)) else "read %d before call %d" % (spec.get("n", 0), k)
+        # oracle: final state
+        what = _oracle(info, B["revs0"], B["revs_new"])
+        if not raised and sc["op"][0] in ("f", "c") and info["revs"] is not None and info["revs"] != B["revs_new"] \
+                and not what:
+            what.append("the operation returned normally but the new revisions are not listed")
+        if what:
+            res["violations"].append(dict(fault=spec, at=case_at, crash_in_handler=None,
+                                          what="%s: %s" % ("after the operation failed with %s" % raised if raised else
+                                                           "the injected exception was swallowed", "; ".join(what[:3]))))
+        # oracle + state of every crash copy taken during the error handling
+        snaps_states = []
+        for pj, (e, sd) in enumerate(post):
+            pi = inspect(sd, B["truth"], do_check=(pj == 0 or sc.get("thorough", False)))
+            lk = os.path.isdir(os.path.join(sd, ".bzr", "repository", "lock", "held"))
+            w = _oracle(pi, B["revs0"], B["revs_new"])
+            if w:
+                res["violations"].append(dict(fault=spec, at=case_at, crash_in_handler=e - k,
+                                              what="crash %d call(s) into the error handling after %s: %s"
+                                              % (e - k, raised, "; ".join(w[:3]))))
+            nex = sum(1 for i, _ in executed if i < e)
+            snaps_states.append((nex, fmt_state(nb, pi["names"] or [], listing(sd), events[e][3], lk)))
+        res["crash_copies"] = len(post)
+        # model request: position in the fault-free operation list.  Calls and reads of the lock
+        # directory protocol are sub-steps of the model's `lock` / `unlock`: before the rename that takes
+        # the lock = `lock` not performed; after it = exception raised by lock_names() after the lock
+        # was taken; before the rename that releases it = `unlock` not performed; after it = exception
+        # raised by unlock after it took effect.
+        base_toks = B["toks"]
+        pos = sum(1 for t in base_toks[:k] if t is not None)
+        j = k - 1
+        while j >= 0 and base_toks[j] is None:
+            j -= 1
+        prev_tok = base_toks[j] if j >= 0 else None
+        next_tok = next((t for t in base_toks[k:] if t is not None), None)
+        t2_skip = None
+
+        def lock_phase():
+            if prev_tok in ("ul", "lk"):
+                return pos - 1, "A"
+            if next_tok in ("ul", "lk"):
+                return pos, "B"
+            return None
+
+        if spec["at"] == "w":
+            mmode = "A" if spec["mode"] == "after" else "B"
+            mkind = MODEL_KIND[spec["kind"]]
+            if k < len(base_toks) and base_toks[k] is None:
+                ph = lock_phase()
+                if ph is None:
+                    t2_skip = "lock-substep-unplaced"
+                else:
+                    pos, mmode = ph
+        else:
+            pth = B["read_paths"][k][spec["n"] - 1] if spec["n"] - 1 < len(B["read_paths"][k]) else ""
+            mmode, mkind = "B", "read"
+            if pth.startswith("lock"):
+                ph = lock_phase()
+                if ph is None:
+                    t2_skip = "lock-read-unplaced"
+                else:
+                    (pos, mmode), mkind = ph, MODEL_KIND[spec["kind"]]
+            elif next_tok is None:
+                # a read after the last mutating call: everything was executed; whether the exception
+                # leaves the operation is decided outside pack_repo.py
+                t2_skip = "read-after-last-call"
+        if spec["at"] == "r" and not raised and t2_skip is None and mkind == "read":
+            # the exception of a read issued by the index / knit layer never reached the operation (it was
+            # handled there, e.g. a missing compression parent on pack-0.92): outside pack_repo.py's error
+            # handling; the oracle (a completed operation must show the new state) still applies
+            t2_skip = "read-fault-handled-upstream"
+        if any(t is not None and t[:4] in ("bw:u", "ew:u") and t.split(".")[-1] in ("rix", "iix", "tix", "six", "cix")
+               for t in toks):
+            # the stream sink swallowed the exception and SUSPENDED the write group (indices written
+            # into upload/): resumable write groups are not part of the model
+            t2_skip = "write-group-suspended"
+        ordt = [t[3:] for t in toks if t is not None and t.startswith("rm:o")]
+        res["cls"] = ("read:" if spec["at"] == "r" else spec["mode"] + ":") + \
+            (tok_class(base_toks[k]) if k < len(base_toks) else "end")
+        if len(set(ordt)) != len(ordt):
+            t2_skip = "duplicate-delete"      # the same file deleted twice: the list_dir order is not a permutation
+        res["t2_skip"] = t2_skip
+        if t2_skip:
+            res["t2"] = None
+        else:
+            req = model_request(sc, nb, B["names0"], B["counts0"], B["lst0"], events, plan_log, ex, base=B["req"])
+            res["t2"] = dict(line=request_line(req, fault=(ordt, pos, mmode, mkind)),
+                             flag="R" if raised else "C", ops=ex, final=st_final, snaps=snaps_states)
+        # a fresh process continues after the failure
+        if retry and sc["style"] != "tree" and info["revs"] is not None and not what and len(info["revs"]) < NREV:
+            w = retry_fetch(final, sc["fmt"], B["truth"], len(info["revs"]))
+            res["retried"] = True
+            if w:
+                res["violations"].append(dict(fault=spec, at=case_at, crash_in_handler=None,
+                                              what="fetching one more revision after the failed operation (%s): %s"
+                                              % (raised, "; ".join(w[:3]))))
+        return res
+    finally:
+        shutil.rmtree(snapbase, ignore_errors=True)
+        shutil.rmtree(root, ignore_errors=True)
+
+
+def fault_runs(B):
+    sc = B["sc"]
+    thorough = sc.get("thorough", False)
+    B["post"] = 16 if thorough else 4
+    specs = choose_faults(sc, B["toks"], B["reads"], B["read_paths"], thorough)
+    if sc.get("only_fault") is not None:
+        specs = [sc["only_fault"]]
+    out = []
+    nretry = 0
+    for spec in specs:
+        retry = nretry < (8 if thorough else 1)
+        r = run_fault(B, spec, retry)
+        nretry += 1 if r.get("retried") else 0
+        out.append(r)
+    return out
+
+
+# --------------------------------------------------------------------------
 # one scenario
 
 def build_initial(ctx_seed, sc):
@@ -661,7 +1007,8 @@ def gen_scenario(rng, i):
     style = rng.choice(["ones", "chunks", "chunks", "mixed", "tree"])
     if style == "tree":
         n = rng.choice([0, 1, 2, 8, 9, 9, 10])
-        return dict(fmt=fmt, style="tree", ncommits=n, op=rng.choice([["c"], ["c"], ["p", False], ["p", True]]), idx=i)
+        return dict(fmt=fmt, style="tree", ncommits=n, op=rng.choice([["c"], ["c"], ["p", False], ["p", True]]), idx=i,
+                    fseed=rng.randrange(1 << 20))
     budget = rng.choice([0, 3, 9, 9, 12, 19, 19, 24, 29])
     while total < budget:
         if style == "ones":
@@ -691,7 +1038,7 @@ def gen_scenario(rng, i):
     else:
         # pack(hint=[one pack]); `twice`: the hinted pack is the result of a previous pack(hint)
         op = ["ph", rng.randrange(0, 50), rng.random() < 0.6]
-    return dict(fmt=fmt, style=style, build=build, op=op, idx=i)
+    return dict(fmt=fmt, style=style, build=build, op=op, idx=i, fseed=rng.randrange(1 << 20))
 
 
 def run_scenario(sc):
@@ -731,6 +1078,9 @@ def run_scenario(sc):
         names0, counts0, revs0 = repo_state(path)
         lst0 = listing(path)
         snapbase = env.fresh_dir("c04s")
+        pristine = env.fresh_dir("c04p")
+        os.rmdir(pristine)
+        shutil.copytree(path, pristine, symlinks=True)
         del _plan_log[:]
         REC.start(os.path.join(path, ".bzr", "repository"), snapbase)
         raised = None
@@ -747,8 +1097,17 @@ def run_scenario(sc):
             raised = "%s: %s" % (type(e).__name__, str(e)[:200])
         finally:
             final = REC.stop()
-        out.update(analyse(sc, path, names0, counts0, revs0, lst0, list(REC.events), REC.snaps + [final],
+        base_events, base_reads, base_paths = list(REC.events), list(REC.reads), [list(x) for x in REC.read_paths]
+        out.update(analyse(sc, path, names0, counts0, revs0, lst0, base_events, REC.snaps + [final],
                            list(_plan_log), truth, raised))
+        revs_new = out.pop("revs_new_ids")
+        if not raised and not sc.get("no_faults"):
+            nb0 = Numbering(names0, lst0)
+            out["faults"] = fault_runs(dict(
+                sc=sc, pristine=pristine, names0=names0, counts0=counts0, lst0=lst0, revs0=revs0, revs_new=revs_new,
+                truth=truth, toks=[canon_event(nb0, e) for e in base_events], reads=base_reads,
+                read_paths=base_paths, req=out["req"], upto=upto))
+        shutil.rmtree(pristine, ignore_errors=True)
         if out.get("prep_raised"):
             out["violations"].append(dict(k=None, what="pack(hint=%r) on the freshly built repository raised %s"
                                           % (hint, out["prep_raised"])))
@@ -783,6 +1142,9 @@ def run_tree_scenario(sc, out):
         f.write("last\n")
     if sc["ncommits"] == 0:
         wt.add(["f"])
+    pristine = env.fresh_dir("c04p")
+    os.rmdir(pristine)
+    shutil.copytree(root, pristine, symlinks=True)
     wt2 = WorkingTree.open(root)
     if op[0] == "c":
         wt2._branch = Branch.open(durl(root))
@@ -805,11 +1167,94 @@ def run_tree_scenario(sc, out):
             truth = digest_all(r, sorted(r.all_revision_ids()))
     except Exception as e:
         raised = (raised or "") + " final state unreadable: %s" % type(e).__name__
-    out.update(analyse(sc, root, names0, counts0, revs0, lst0, list(REC.events), REC.snaps + [final],
+    base_events, base_reads, base_paths = list(REC.events), list(REC.reads), [list(x) for x in REC.read_paths]
+    out.update(analyse(sc, root, names0, counts0, revs0, lst0, base_events, REC.snaps + [final],
                        list(_plan_log), truth, raised))
+    revs_new = out.pop("revs_new_ids")
+    if not raised and not sc.get("no_faults"):
+        nb0 = Numbering(names0, lst0)
+        out["faults"] = fault_runs(dict(
+            sc=sc, pristine=pristine, names0=names0, counts0=counts0, lst0=lst0, revs0=revs0, revs_new=revs_new,
+            truth=truth, toks=[canon_event(nb0, e) for e in base_events], reads=base_reads,
+            read_paths=base_paths, req=out["req"], upto=None))
+    shutil.rmtree(pristine, ignore_errors=True)
     shutil.rmtree(snapbase, ignore_errors=True)
     shutil.rmtree(root, ignore_errors=True)
     return out
+
+
+def _J(l):
+    return ",".join(map(str, l)) or "-"
+
+
+def model_request(sc, nb, names0, counts0, lst0, events, plan_log, ops, base=None):
+    """the arguments of the model request describing the operation of a run.  `base` = the request of
+    the fault-free run of the same scenario: a run cut short by an injected fault takes from it what
+    it did not get to (names of packs not yet created, the plan, whether the packer found the pack
+    already optimal); the canonical numbering of both runs agrees up to the fault."""
+    fmt = sc["fmt"]
+    op = sc["op"]
+    req = dict(chk="T" if fmt == "2a" else "F", listed=[nb.map[n] for n in names0],
+               files=sorted(nb.tok(*e) for e in lst0))
+    # roles: the k-th upload stream and the pack whose indices are written right after it
+    fresh = []
+    for ev in events:
+        if ev[0] == "ows" and ev[1] is not None:
+            sub, _, fn = ev[1].partition("/")
+            stem = split_name(fn)[0]
+            if sub == "upload":
+                fresh.append(nb.num(stem))
+            elif sub == "indices" and len(fresh) % 2 == 1:
+                fresh.append(nb.num(stem))
+    if base is not None:
+        fresh = fresh + base["fresh"][len(fresh):]
+    if len(fresh) % 2 == 1:
+        fresh.append(len(nb.map) + 50)
+    basen = len(nb.map)
+    if op[0] in ("f", "c"):
+        req["kind"] = "commit"
+        while len(fresh) < 4:
+            fresh.append(basen + len(fresh) + 100)
+        new0 = fresh[1]
+        newcount = op[1] if op[0] == "f" else 1
+        if plan_log and isinstance(plan_log[-1], list):
+            counts = [(nb.map.get(n, new0), c) for (n, c) in plan_log[-1]]
+            seen = {n for n, _ in counts}
+            counts += [(nb.map[n], counts0.get(n, 0)) for n in names0 if nb.map[n] not in seen]
+        elif base is not None:
+            counts = base["counts"]
+        else:
+            counts = [(nb.map[n], counts0.get(n, 0)) for n in names0] + [(new0, newcount)]
+        req["counts"] = [list(c) for c in counts]
+        req["fresh"] = fresh[:4]
+    else:
+        req["kind"] = "pack"
+        while len(fresh) < 2:
+            fresh.append(basen + len(fresh) + 100)
+        # the packer aborted (single pack already optimal): upload file deleted, no new pack
+        req["optimal"] = base["optimal"] if base is not None else any(t.startswith("rm:u") for t in ops)
+        req["hint"] = "~" if op[0] == "p" else _J([nb.map[h] for h in sc["hint"] if h in nb.map])
+        req["clean"] = bool(op[0] == "p" and op[1])
+        req["fresh"] = fresh[:2]
+    return req
+
+
+def request_line(req, fault=None):
+    """protocol line of the driver; `fault` = (ord tokens, pos, "B"|"A", kind) for the fault variant"""
+    T = lambda b: "T" if b else "F"
+    if req["kind"] == "commit":
+        line = "commit %s %s %s - %s %s %s %s" % (req["chk"], _J(req["listed"]), _J(req["files"]), _J(req["listed"]),
+                                                  _J(req["listed"]), ",".join("%d:%d" % tuple(c) for c in req["counts"]),
+                                                  _J(req["fresh"]))
+    else:
+        line = "pack %s %s %s - %s %s %s %s %s %s" % (req["chk"], _J(req["listed"]), _J(req["files"]), _J(req["listed"]),
+                                                      _J(req["listed"]), req["hint"], T(req["optimal"]), T(req["clean"]),
+                                                      _J(req["fresh"]))
+    if fault is not None:
+        ordt, pos, mode, kind = fault
+        line = ("cfault" if req["kind"] == "commit" else "pfault") + line[line.index(" "):] + " %s %d %s %s" % (
+            _J(ordt), pos, mode, kind)
+    return line
 
 
 def analyse(sc, path, names0, counts0, revs0, lst0, events, snaps, plan_log, truth, raised):
@@ -822,6 +1267,7 @@ def analyse(sc, path, names0, counts0, revs0, lst0, events, snaps, plan_log, tru
     revs_new = fin["revs"]
     res["revs_old"] = len(revs0)
     res["revs_new"] = len(revs_new) if revs_new is not None else None
+    res["revs_new_ids"] = revs_new
     if raised:
         res["violations"].append(dict(k=len(snaps) - 1, what="operation raised %s" % raised))
     if fin["problems"]:
@@ -844,6 +1290,11 @@ def analyse(sc, path, names0, counts0, revs0, lst0, events, snaps, plan_log, tru
     for k, ev in enumerate(events):
         if ev[0] == "put_file" or (ev[1] or "").startswith("lock") or ev[0] in ("ows", "close", "delete"):
             near.update(range(k - 2, k + 4))
+    # crash-then-retry copies: right before and right after the pack-names replacement
+    retry_at = set()
+    for k, ev in enumerate(events):
+        if ev[0] == "put_file" and ev[1] == "pack-names":
+            retry_at.update((k, k + 1))
     for k, snap in enumerate(snaps):
         ev = events[k] if k < len(events) else None
         open_rel = ev[3] if ev is not None else ()
@@ -894,6 +1345,38 @@ def analyse(sc, path, names0, counts0, revs0, lst0, events, snaps, plan_log, tru
                 res["violations"].append(dict(k=k, torn=o, frac=frac, at=(list(ev[:3]) if ev else "end"),
                                               what="torn %s: %s" % (o, "; ".join(w[:3]))))
             res["torn_variants"] = res.get("torn_variants", 0) + 1
+        if ev is not None and ev[0] == "put_file" and ev[1] == "pack-names" and k + 1 < len(snaps):
+            # a crash INSIDE the atomic put_file: LocalTransport writes `.tmpXXXXXX` next to pack-names and
+            # renames it; the temporary file (half written) is left behind, pack-names is still the old one
+            tmpf = os.path.join(snap, ".bzr", "repository", ".tmpVerif0")
+            try:
+                with open(os.path.join(snaps[k + 1], ".bzr", "repository", "pack-names"), "rb") as f:
+                    data = f.read()
+            except OSError:
+                data = b""
+            with open(tmpf, "wb") as f:
+                f.write(data[: len(data) // 2])
+            vi = inspect(snap, truth, do_check=True)
+            os.unlink(tmpf)
+            w = _oracle(vi, revs0, revs_new)
+            if vi["revs"] is not None and vi["revs"] != info["revs"]:
+                w.append("the leftover temporary file changes the listed revisions")
+            if w:
+                res["violations"].append(dict(k=k, torn=".tmp (put_file)", at=list(ev[:3]),
+                                              what="temporary file of put_file(pack-names) left behind: %s" % "; ".join(w[:3])))
+            res["putfile_tmp_variants"] = res.get("putfile_tmp_variants", 0) + 1
+        if (sc["style"] != "tree" and info["revs"] is not None and not what and len(info["revs"]) < NREV
+                and (k in retry_at or (thorough and k % 4 == 1))):
+            # crash, then retry: a fresh process fetches the next revision into a real copy of this crash copy
+            rc = env.fresh_dir("c04r")
+            os.rmdir(rc)
+            shutil.copytree(snap, rc)
+            w = retry_fetch(rc, fmt, truth, len(info["revs"]))
+            shutil.rmtree(rc, ignore_errors=True)
+            res["retries"] = res.get("retries", 0) + 1
+            if w:
+                res["violations"].append(dict(k=k, at=(list(ev[:3]) if ev else "end"),
+                                              what="fetching one more revision after this crash: %s" % "; ".join(w[:3])))
         st = fmt_state(nb, info["names"] or [], listing(snap), open_rel, locked)
         vis = "?" if info["revs"] is None else ("O" if info["revs"] == revs0 else "N" if info["revs"] == revs_new else "X")
         per_snap.append((nops, st, vis))
@@ -918,47 +1401,11 @@ def analyse(sc, path, names0, counts0, revs0, lst0, events, snaps, plan_log, tru
     res["vis"] = "".join(v for (_, _, v) in per_snap)
     res["inconsistent"] = inconsistent
     # model request
-    chk = "T" if fmt == "2a" else "F"
-    listed = [nb.map[n] for n in names0]
-    files = sorted(nb.tok(*e) for e in lst0)
-    # roles: the k-th upload stream and the pack whose indices are written right after it
-    fresh = []
-    for ev in events:
-        if ev[0] == "ows" and ev[1] is not None:
-            sub, _, fn = ev[1].partition("/")
-            stem = split_name(fn)[0]
-            if sub == "upload":
-                fresh.append(nb.num(stem))
-            elif sub == "indices" and len(fresh) % 2 == 1:
-                fresh.append(nb.num(stem))
-    if len(fresh) % 2 == 1:
-        fresh.append(len(nb.map) + 50)
-    base = len(nb.map)
-    J = lambda l: ",".join(map(str, l)) or "-"
-    if op[0] in ("f", "c"):
-        while len(fresh) < 4:
-            fresh.append(base + len(fresh) + 100)
-        new0 = fresh[1]
-        newcount = op[1] if op[0] == "f" else 1
-        if plan_log and isinstance(plan_log[-1], list):
-            counts = [(nb.map.get(n, new0), c) for (n, c) in plan_log[-1]]
-            seen = {n for n, _ in counts}
-            counts += [(nb.map[n], counts0.get(n, 0)) for n in names0 if nb.map[n] not in seen]
-        else:
-            counts = [(nb.map[n], counts0.get(n, 0)) for n in names0] + [(new0, newcount)]
-        line = "commit %s %s %s - %s %s %s %s" % (chk, J(listed), J(files), J(listed), J(listed),
-                                                  ",".join("%d:%d" % c for c in counts), J(fresh[:4]))
-    else:
-        while len(fresh) < 2:
-            fresh.append(base + len(fresh) + 100)
-        # the packer aborted (single pack already optimal): upload file deleted, no new pack
-        optimal = any(t.startswith("rm:u") for t in ops)
-        hint = "~" if op[0] == "p" else J([nb.map[h] for h in sc["hint"] if h in nb.map])
-        clean = op[0] == "p" and op[1]
-        line = "pack %s %s %s - %s %s %s %s %s %s" % (chk, J(listed), J(files), J(listed), J(listed), hint,
-                                                      "T" if optimal else "F", "T" if clean else "F", J(fresh[:2]))
-        if len(fresh) >= 2 and fresh[1] in listed:
-            res["collision"] = True     # distribution counter only: a pack was finished onto a listed name
+    req = model_request(sc, nb, names0, counts0, lst0, events, plan_log, ops)
+    line = request_line(req)
+    res["req"] = req
+    if req["kind"] == "pack" and req["fresh"][1] in req["listed"]:
+        res["collision"] = True     # distribution counter only: a pack was finished onto a listed name
     res["line"] = line
     # the order in which _clear_obsolete_packs deletes is the order of list_dir: runs of deletions in
     # obsolete_packs/ are compared as sets (after checking that each one removes exactly its file)
@@ -1026,13 +1473,36 @@ def _first_diff(a, b):
     return "equal"
 
 
+BENIGN_ERRORS = ("history exhausted", "no pack to hint at")
+
+
+def scenario_error(ctx, sc, err):
+    """a scenario that could not be run at all.  Benign: the generator asked for more history than the
+    source has / a hint on an empty repository.  Raised inside breezy (last traceback frame outside the
+    harness): building a history by fetches / packs / continuing from a crash copy failed without any
+    crash of the operation under test -> the property fails for that scenario.  Anything else is an
+    infrastructure problem (exit 2)."""
+    if err in BENIGN_ERRORS:
+        ctx.count("scenario-skipped:" + err.replace(" ", "-"))
+        return
+    ctx.count("scenario-error")
+    ctx.extra.setdefault("scenario_errors", []).append(err[:300])
+    import re
+    frames = re.findall(r'File "([^"]+)", line', err)
+    if frames and "/harness/" not in frames[-1]:
+        ctx.violation(dict(scenario=dict(sc, no_faults=True)),
+                      "running the scenario (no crash injected) raised %s" % err.split("\n")[0][:300])
+    else:
+        raise env.InfraError("C04 scenario %r failed inside the harness: %s" % (sc.get("idx"), err[-600:]))
+
+
 def process(ctx, results):
     cases, lines, impls = [], [], []
+    fcases, flines, fimpls = [], [], []
     for r in results:
         sc = r["sc"]
         if r.get("error"):
-            ctx.count("scenario-error")
-            ctx.extra.setdefault("scenario_errors", []).append(r["error"][:300])
+            scenario_error(ctx, sc, r["error"])
             continue
         case = dict(scenario=sc)
         ctx.count("op:%s" % ("fetch" if sc["op"][0] == "f" else "commit" if sc["op"][0] == "c" else
@@ -1043,13 +1513,16 @@ def process(ctx, results):
         ctx.count("autopack" if r["autopack"] else "no-autopack")
         ctx.count("crash-copies", r["nsnaps"])
         ctx.count("torn-variants", r.get("torn_variants", 0))
+        ctx.count("put_file-temp-variants", r.get("putfile_tmp_variants", 0))
+        ctx.count("crash-then-fetch", r.get("retries", 0))
         ctx.count("ops:%d" % (10 * (len(r["ops"]) // 10)))
         if any(s[0] == "crash" for s in sc.get("build", [])):
             ctx.count("starts-from-crash-copy")
         for k in range(r["nsnaps"]):
             ctx.case(dict(ops=r["ops"], init=r["states"][0] if r["states"] else "", k=k), nontrivial=r["pn"] > 0)
         for v in r["violations"]:
-            ctx.violation(dict(scenario=sc, crash_index=v.get("k"), at=v.get("at"), torn=v.get("torn")), v["what"])
+            ctx.violation(dict(scenario=dict(sc, no_faults=True), crash_index=v.get("k"), at=v.get("at"),
+                               torn=v.get("torn")), v["what"])
         if r["inconsistent"]:
             ctx.mismatch(case, "directory changed during lock sub-steps at prefixes %r" % r["inconsistent"], "-")
         if "X" in r["vis"] or "?" in r["vis"]:
@@ -1057,18 +1530,76 @@ def process(ctx, results):
         cases.append(case)
         lines.append(r["line"])
         impls.append(r["impl"])
+        # fault-injected runs of the same operation
+        for fr in r.get("faults", []):
+            spec = fr["spec"]
+            fcase = dict(scenario=dict(sc, only_fault=spec), fault=spec)
+            ctx.count("fault-runs")
+            if fr.get("skipped"):
+                ctx.count("fault-skipped:" + fr["skipped"])
+                if fr["skipped"] == "trace-differs-before-fault":
+                    ctx.mismatch(fcase, fr.get("detail"), "(deterministic prefix expected)")
+                continue
+            ctx.count("fault-at:" + fr["cls"])
+            ctx.count("fault-kind:" + spec["kind"])
+            ctx.count("fault-outcome:%s-%s" % ("raised" if fr["raised"] else "completed", fr["vis"]))
+            ctx.count("fault-handler-crash-copies", fr.get("crash_copies", 0))
+            if fr.get("retried"):
+                ctx.count("fault-then-fetch")
+            ctx.case(dict(ops=r["ops"], init=r["states"][0] if r["states"] else "", fault=spec),
+                     nontrivial=r["pn"] > 0)
+            for v in fr["violations"]:
+                ctx.violation(dict(scenario=dict(sc, only_fault=spec), fault=spec, at=v.get("at"),
+                                   crash_in_handler=v.get("crash_in_handler")), v["what"])
+            if fr.get("t2") is None:
+                ctx.count("fault-t2-skipped:%s" % fr.get("t2_skip"))
+                continue
+            fcases.append(fcase)
+            flines.append(fr["t2"]["line"])
+            fimpls.append(fr["t2"])
     if lines and ctx.model_available:
-        outs = ctx.model(lines)
+        outs = ctx.model(lines + flines)
         for c, l, i, m in zip(cases, lines, impls, outs):
             ctx.traces += 1
             m = collapse_reply(m)
             if i != m:
                 ctx.mismatch(c, _first_diff(i, m), "(see impl)", line=l[:400])
+        for c, l, i, m in zip(fcases, flines, fimpls, outs[len(lines):]):
+            ctx.traces += 1
+            d = fault_diff(i, m)
+            if d:
+                ctx.mismatch(c, d, "(see impl)", line=l[:400])
+
+
+def fault_diff(i, m):
+    """impl (dict flag/ops/final/snaps) against the model reply `R|C op;op;… state/state/…`"""
+    parts = m.split(" ")
+    if len(parts) != 3 or parts[0] not in ("R", "C"):
+        return "model reply: %s" % m[:100]
+    mops = [] if parts[1] == "-" else parts[1].split(";")
+    mstates = parts[2].split("/")
+    if mops != i["ops"]:
+        for j in range(max(len(mops), len(i["ops"]))):
+            a = i["ops"][j] if j < len(i["ops"]) else None
+            b = mops[j] if j < len(mops) else None
+            if a != b:
+                return "executed operation %d: impl=%s model=%s (impl executed %d, model %d)" % (
+                    j, a, b, len(i["ops"]), len(mops))
+    if parts[0] != i["flag"]:
+        return "impl %s, model %s" % ("raised" if i["flag"] == "R" else "completed",
+                                      "raises" if parts[0] == "R" else "completes")
+    if mstates[-1] != i["final"]:
+        return "final state: impl=%s model=%s" % (i["final"], mstates[-1])
+    for nex, st in i["snaps"]:
+        if nex >= len(mstates) or mstates[nex] != st:
+            return "state after %d executed operations (crash in the error handling): impl=%s model=%s" % (
+                nex, st, mstates[nex] if nex < len(mstates) else None)
+    return None
 
 
 def run(ctx, n=None):
     register()
-    n = n or ctx.pick(26, 150)
+    n = n or ctx.pick(22, 150)
     rng = ctx.rng
     scs = [gen_scenario(rng, i) for i in range(n)]
     for sc in scs:
@@ -1104,6 +1635,11 @@ def replay(ctx, case):
         source(fmt)
     r = run_scenario(case["scenario"])
     process(ctx, [r])
+    faults = [dict(fault=fr["spec"], raised=fr.get("raised"), revisions_after={"O": "old", "N": "new", "X": "NEITHER",
+                                                                                "?": "UNREADABLE"}.get(fr.get("vis")),
+                   executed=(fr.get("t2") or {}).get("ops"), oracle_failures=fr.get("violations"),
+                   skipped=fr.get("skipped")) for fr in r.get("faults", [])]
     return dict(scenario=case["scenario"], impl_ops=r.get("ops"), model_line=r.get("line"),
                 visibility_per_crash_copy=r.get("vis"), oracle_failures=r.get("violations"),
+                fault_injected_runs=faults,
                 error=r.get("error"), mismatches=[m for m in ctx.mismatches if m][:3])
